@@ -68,23 +68,28 @@ pub fn gen(out: &mut Out, _sub: &str) {
         let mut r = rng.fork();
         let externs = externs_c17(&mut r);
         let mut k = knobs();
-        match r.below(3) {
+        let mut weights: &'static [(&'static str, u64)] = &[("access", 14), ("open", 12), ("chroot", 10), ("chdir", 7), ("setuid", 4), ("stat", 4)];
+        match r.below(4) {
             0 => {
                 k.subs = (1, 1);
                 k.blocks = (3, 8);
             }
-            1 => {
+            1 | 2 => {
+                weights = &[("access", 20), ("open", 20), ("chroot", 12), ("chdir", 12), ("setuid", 3)];
                 // straight-line chains: source call, internal calls (to returning and non-returning
                 // functions), further source calls and the sink call follow each other
                 k.p_chain = 75;
-                k.w_int_call = 30;
+                k.w_int_call = 26;
+                k.w_ext_call = 60;
+                k.w_cbranch = 8;
+                k.w_branch = 5;
                 k.w_return = 16;
                 k.subs = (2, 3);
                 k.blocks = (2, 7);
             }
             _ => {}
         }
-        let program = gen_program(&mut r, &k, &externs, &mut PlainHooks(&[("access", 14), ("open", 12), ("chroot", 10), ("chdir", 7), ("setuid", 4), ("stat", 4)]));
+        let program = gen_program(&mut r, &k, &externs, &mut PlainHooks(weights));
         let project = mk_project(program, vec![cconv_std()]);
         let pj = irenc::project(&project);
         // CWE367: the default pair plus random further pairs (check != use, names may be absent)
